@@ -21,7 +21,7 @@ def capture_scenarios():
     wrappers = ["block", "if", "fn", "while", "for", "try", "catch", "finally", "tryfn"]
     exits = ["fall", "break", "continue", "return", "throw", "error"]
     for wrapper, npad, kind, exit_, outer_local, write_after in itertools.product(
-            wrappers, (0, 1, 2), ("read", "write", "two"), exits, (False, True), (False, True)):
+            wrappers, (0, 1, 2), ("read", "write", "two", "reverse"), exits, (False, True), (False, True)):
         if exit_ in ("break", "continue") and wrapper not in ("while", "for"):
             continue
         if exit_ == "return" and wrapper not in ("fn", "tryfn"):
@@ -66,7 +66,13 @@ def capture_scenarios():
         for i in range(npad):
             b.var("p%d" % i, lit(100 + i))
         b.var("v", lit(1))
-        if kind == "read":
+        if kind == "reverse":
+            # two variables captured in the order opposite to their declaration; both closures are used later
+            b.var("w", lit("w0"))
+            b.expr(b.assign("h", b.lam([], lambda: b.v("w"))))
+            b.expr(b.assign("g", b.lam([], lambda: b.v("v"))))
+            b.expr(b.assign("v", lit("v1")))
+        elif kind == "read":
             b.expr(b.assign("g", b.lam([], lambda: b.v("v"))))
         elif kind == "write":
             b.expr(b.assign("g", b.lam([], lambda: b.assign("v", bin_("+", b.v("v"), lit(10))))))
@@ -109,6 +115,8 @@ def capture_scenarios():
         b.var("q0", lit("reuse0"))
         b.var("q1", lit("reuse1"))
         b.print(call(b.v("g")))
+        if kind == "reverse":
+            b.print(call(b.v("h")))
         if kind == "two":
             b.expr(call(b.v("h"), lit(7)))
             b.print(call(b.v("g")))
@@ -361,6 +369,11 @@ def class_scenarios(rng, count):
                 b.end()
                 explicit_ctor_levels.append(lvl)
             b.end()
+        # constructors all called `new`: explicit in Base, default in Mid (requested by attribute), explicit in Leaf calling super.new()
+        b.class_("Base0"); b.method("new", [], "ctor"); b.expr(setf(b.v("self"), "tag", lit("set by Base0"))); b.end()
+        b.method("tags", []); b.ret(tup(lit("tags"), get(b.v("self"), "tag"))); b.end(); b.end()
+        b.class_("Mid", sup="Base0", ctor="new"); b.end()
+        b.class_("Leaf", sup="Mid"); b.method("new", [], "ctor"); b.expr(b.superinv("new")); b.expr(setf(b.v("self"), "leaf", lit(1))); b.end(); b.end()
         if rng.random() < 0.2:
             b.expr(b.assign(names[0], lit(None)))          # rebinding the superclass name changes nothing
         for step in range(rng.randint(2, 6)):
@@ -371,7 +384,7 @@ def class_scenarios(rng, count):
             b.try_()
             b.var(var, mk)
             action = rng.choice(["m", "n", "who", "bound", "field-shadow", "arity", "static-class", "static-inst", "derives", "fields",
-                                 "unknown", "method-in-var", "setf-class"])
+                                 "unknown", "method-in-var", "setf-class", "bound-native-field", "bound-native-field", "super-new"])
             if action in ("m", "n"):
                 b.print(inv(b.v(var), action, *([lit(step)] if rng.random() < 0.4 else [])))
             elif action == "who":
@@ -394,6 +407,13 @@ def class_scenarios(rng, count):
                 b.print(inv(b.v(var), "zzz"))
             elif action == "method-in-var":
                 b.var("held", get(b.v(var), "n")); b.expr(setf(b.v(var), "keep", b.v("held"))); b.print(inv(b.v(var), "keep"))
+            elif action == "bound-native-field":
+                # a built-in method taken from one instance, kept in a field of ANOTHER instance, stays bound to the first
+                b.var("other", inv(b.v(names[0]), "new"))
+                b.expr(setf(b.v("other"), "chk", get(b.v(var), "derives")))
+                b.print(tup(inv(b.v("other"), "chk", b.v(names[-1])), inv(b.v("other"), "chk", b.v(names[0])), get(b.v("other"), "chk")))
+            elif action == "super-new":
+                b.print(inv(inv(b.v("Leaf"), "new"), "tags"))
             else:
                 b.expr(setf(b.v(cname), "attr", lit(1)))
             b.catch("e")
@@ -463,7 +483,8 @@ def iteration_scenarios(rng, count):
                 e = inv(e, "map", b.lam(["x"], lambda: b.v("x")))
             else:
                 e = inv(e, "filter", b.lam(["x"], lambda: (bin_("!=", b.v("x"), lit(2 + 2 * c)) if numeric else lit(c % 2 == 0))))
-        consumer = rng.choice(["for", "for", "for-break", "for-continue", "for-return", "collect", "reduce", "nested", "interleaved", "mutate", "manual-next"])
+        consumer = rng.choice(["for", "for", "for-break", "for-continue", "for-return", "collect", "reduce", "nested", "interleaved", "mutate", "manual-next",
+                               "range-held"])
         if consumer in ("collect", "reduce") and not (nchain or src in ("user-derived", "iter-of-vec")):
             consumer = "for"
         if consumer == "for":
@@ -491,6 +512,11 @@ def iteration_scenarios(rng, count):
                 b.expr(inv(b.v("w"), "pop"))
             b.end()
             b.print(b.v("v")); b.end(); b.print(b.v("w"))
+        elif consumer == "range-held":
+            # a range value stays what it was, however many other ranges are created meanwhile (the VM caches 8)
+            b.var("held", rng_(1, 3)); b.var("heldit", inv(b.v("held"), "iter"))
+            b.for_("q", rng_(0, 10)); b.for_("z", {"k": "range", "l": b.v("q"), "r": bin_("+", b.v("q"), lit(20))}); b.break_(); b.end(); b.end()
+            b.print(b.v("held")); b.for_("v", b.v("held")); b.print(b.v("v")); b.end(); b.print(inv(b.v("heldit"), "next")); b.print(idx(vec(lit(10), lit(11), lit(12)), lit(0)))
         else:
             b.var("it", inv(e, "iter")); b.print(inv(b.v("it"), "next")); b.print(inv(b.v("it"), "next")); b.for_("rest", b.v("it")); b.print(b.v("rest")); b.end(); b.print(inv(b.v("it"), "next"))
         if wrap_fn:
@@ -615,6 +641,8 @@ def module_scenarios(rng, count):
             b.var("only_" + mname, lit(1))
             b.fn("f", []); b.ret(tup(lit("f in " + mname), b.v("g"))); b.end()
             b.fn("builtins", []); b.ret(tup(call(b.v("type"), lit(1)), b.v("Vec"), b.v("StopIter"), inv(inv(vec(lit(1)), "iter"), "collect"))); b.end()
+            b.fn("peek", []); b.ret(b.v("main_only")); b.end()             # must not see the importer's globals
+            b.fn("poke", []); b.expr(b.assign("main_only", lit("overwritten by " + mname))); b.ret(lit("poked")); b.end()
             for o in edges[mname]:
                 style = rng.choice(["top", "try", "fn"])
                 alias = "im_" + o
@@ -630,12 +658,13 @@ def module_scenarios(rng, count):
             modrecs.append({"path": mname, "prog": b.toks})
         b = Builder()
         b.var("g", lit("g@main"))
+        b.var("main_only", lit("visible in main only"))
         nsteps = rng.randint(2, 6)
         for step in range(nsteps):
             target = rng.choice(mods + (["nowhere"] if rng.random() < 0.1 else []))
             alias = "x%d" % step
             act = rng.choice(["import-print", "import-call", "import-twice-same", "import-in-fn", "set-attr", "missing-attr", "late", "leak-check",
-                              "builtins", "import-uncaught"])
+                              "builtins", "import-uncaught", "peek", "poke"])
             if act == "import-uncaught":
                 if step < nsteps - 1:
                     act = "import-print"
@@ -660,8 +689,13 @@ def module_scenarios(rng, count):
                 b.import_(target, alias); b.print(b.v("g")); b.print(b.v("only_" + target))
             elif act == "builtins":
                 b.import_(target, alias); b.print(inv(b.v(alias), "builtins"))
+            elif act == "peek":
+                b.import_(target, alias); b.print(inv(b.v(alias), "peek"))
+            elif act == "poke":
+                b.import_(target, alias); b.print(inv(b.v(alias), "poke"))
             b.catch("e"); b.print(tup(lit("main caught"), call(b.v("type"), b.v("e")), get(b.v("e"), "context"))); b.end()
         b.print(b.v("g"))
+        b.print(b.v("main_only"))
         out.append(("mod:%d" % k, {"snips": [{"prog": b.toks}], "mods": modrecs}))
     return out
 
@@ -672,17 +706,26 @@ def snippet_scenarios(rng, count):
     out = []
     catalogue = ["def-var", "def-fn", "def-class", "use-var", "use-fn", "use-class", "compile-error", "throw-top", "throw-nested", "throw-in-fiber",
                  "throw-in-finally", "builtin-error", "import", "import-failing", "reset", "try-finally-ok", "fiber-persist", "fiber-resume",
-                 "uncaught-in-class-def", "closure-persist", "mutate-var", "throw-through-two-finally", "error-in-method"]
+                 "uncaught-in-class-def", "closure-persist", "mutate-var", "throw-through-two-finally", "error-in-method",
+                 "inspect-failed-fiber", "fail-in-module-fn", "use-after"]
+    triples = [(a, c) for a in catalogue for c in catalogue if a != "reset" and c != "reset"]
     for k in range(count):
         n = rng.randint(2, 6)
+        plan = [rng.choice(catalogue) for _ in range(n)]
+        if k < len(triples) and k % 2 == 0:
+            a, c = triples[(k // 2 * 7) % len(triples)]
+            plan = ["def-var", "def-fn", "import", "throw-in-fiber", a, "reset", c, "use-after"]
+        elif k % 5 == 1:
+            plan = ["throw-in-fiber"] + plan + ["inspect-failed-fiber"]
+        n = len(plan)
         snips = []
         mods = [{"path": "lib", "prog": None}, {"path": "broken", "prog": None}]
-        lb = Builder(first_decl=5000); lb.print(lit("lib body")); lb.var("v", lit("lib.v")); lb.fn("f", []); lb.ret(lit("lib.f")); lb.end()
+        lb = Builder(first_decl=5000); lb.print(lit("lib body")); lb.var("v", lit("lib.v")); lb.fn("f", []); lb.ret(lit("lib.f")); lb.end(); lb.fn("fails", []); lb.throw(lit("lib.fails")); lb.end()
         mods[0]["prog"] = lb.toks
         bb = Builder(first_decl=6000); bb.print(lit("broken body")); bb.throw(lit("broken while loading"))
         mods[1]["prog"] = bb.toks
         for si in range(n):
-            kind = rng.choice(catalogue)
+            kind = plan[si]
             b = Builder(first_decl=100 * (si + 1))
             if kind == "compile-error":
                 snips.append({"bad": True, "src": "var x = (1;\n", "messages": ["[module \"main\", line 1] Error at ';': Expected ')' after expression."], "prog": []})
@@ -730,6 +773,13 @@ def snippet_scenarios(rng, count):
                 b.expr(b.assign("shared", lit("mutated in %d" % si))); b.print(call(b.v("counter")))
             elif kind == "throw-through-two-finally":
                 b.try_(); b.try_(); b.throw(lit("two %d" % si)); b.finally_(); b.print(lit("inner")); b.end(); b.finally_(); b.print(lit("outer")); b.end()
+            elif kind == "inspect-failed-fiber":
+                b.try_(); b.print(inv(b.v("fib"), "has_finished")); b.print(inv(b.v("fib"), "call")); b.catch("e"); b.print(tup(lit("inspect"), call(b.v("type"), b.v("e")), get(b.v("e"), "context"))); b.end()
+            elif kind == "fail-in-module-fn":
+                b.import_("lib", "lib"); b.print(inv(b.v("lib"), "fails"))
+            elif kind == "use-after":
+                for nm in ("shared", "helper", "lib", "Kept", "Vec", "StopIter"):
+                    b.try_(); b.print(b.v(nm)); b.catch("e"); b.print(tup(lit("undefined"), lit(nm))); b.end()
             elif kind == "error-in-method":
                 b.class_("Tmp", ctor="new"); b.method("boom", []); b.ret(bin_("-", lit("x"), lit(1))); b.end(); b.end(); b.print(inv(inv(b.v("Tmp"), "new"), "boom"))
             snips.append({"prog": b.toks})
